@@ -93,7 +93,7 @@ func hitsAfterChange(c Case, changeIdx int) int64 {
 
 // ---- the history generator ---------------------------------------------------------------------------
 
-var argPool = []string{"0", "1", "2", "3", "0.0", "-0.0", "1.0", "2.5", `"a"`, `"b"`, "[1]", "[1, 2]", `{"k": 1}`, "true", "nil", "g1", "K1"}
+var argPool = []string{"0", "1", "2", "3", "0.0", "-0.0", "1.0", "2.5", `"a"`, `"b"`, "[1]", "[1, 2]", "[[1]]", "[[1, 2]]", "[]", `{"k": 1}`, "true", "nil", "g1", "K1"}
 
 type hgen struct {
 	t         *rapid.T
@@ -214,7 +214,7 @@ func (h *hgen) repeat() {
 }
 
 func (h *hgen) closures() {
-	switch rapid.IntRange(0, 4).Draw(h.t, "closure") {
+	switch rapid.IntRange(0, 6).Draw(h.t, "closure") {
 	case 0: // same text, different captured numbers / strings
 		h.add("mk1 = c => x => x + c", true)
 		v1, v2 := h.pick([]string{"1", "2", `"s"`, "0.5"}, "v1"), h.pick([]string{"1", "10", `"t"`, "1.5"}, "v2")
@@ -236,9 +236,31 @@ func (h *hgen) closures() {
 		h.add("mk4 = () => { n = 0; () => { n = n + 1; n } }", true)
 		h.add("cnt = mk4()", true)
 		h.add("println(cnt(), cnt(), cnt())", false)
-	default: // local function defined per call
+	case 4: // local function defined per call
 		h.add("outer = (a, b) => { inner = x => x + a; inner(b) }", true)
 		h.register("outer", 2)
+	case 5: // variadic: a trailing array argument is spread, [[1]] and [1] must not be confused
+		h.add(h.pick([]string{"fv = func(a, ..) { .. }", "fv = (a, ..) => { [a, len(..), ..] }", "func fv(a, ..) { println(\"fv\", a, ..); len(..) }"}, "variadic"), true)
+		h.register("fv", 2)
+		a, b := h.pick([]string{"1", "\"a\"", "2.5"}, "va"), h.pick([]string{"1", "5", "\"x\""}, "vb")
+		forms := []string{fmt.Sprintf("println(fv(%s, [[%s]]))", a, b), fmt.Sprintf("println(fv(%s, [%s]))", a, b), fmt.Sprintf("println(fv(%s, %s))", a, b), fmt.Sprintf("println(fv(%s, [%s, %s]))", a, b, b), fmt.Sprintf("println(fv(%s, [[%s], %s]))", a, b, b)}
+		for i := rapid.IntRange(3, 7).Draw(h.t, "vcalls"); i > 0; i-- {
+			c := h.pick(forms, "vform")
+			h.add(c, false)
+			h.calls = append(h.calls, c)
+		}
+		pbt.Label("history:variadic-spread-scenario")
+	default: // upper case parameters: binding them can fail depending on the captured scope
+		h.add("mk5 = func(N) { func(N) { N * 2 } }", true)
+		h.add(fmt.Sprintf("cg = mk5(%s); ch = mk5(%s)", h.pick([]string{"1", "2"}, "n1"), h.pick([]string{"2", "3"}, "n2")), true)
+		h.register("cg", 1)
+		h.register("ch", 1)
+		for i := rapid.IntRange(3, 7).Draw(h.t, "ccalls"); i > 0; i-- {
+			c := fmt.Sprintf("println(catch(%s(%s)))", h.pick([]string{"cg", "ch"}, "cfn"), h.pick([]string{"1", "2", "3"}, "carg"))
+			h.add(c, false)
+			h.calls = append(h.calls, c)
+		}
+		pbt.Label("history:constant-parameter-closures-scenario")
 	}
 }
 
